@@ -20,9 +20,13 @@ Inductive fstep :=
 | FProduce (lg : Z) (payload : bytes) (flush acked : bool) (code base : Z)
 | FFlush (lg : Z)
 | FRestart (stores : list Z)
+    (* per partition log: topic, partition, the prefix its RestoreFromS3 passed to
+       ListSegments and the keys returned (sorted); then all segment keys of the bucket *)
+    (lists : list (bytes * Z * bytes * list bytes)) (all_keys : list bytes)
 | FFetch (lg : Z) (o max : Z) (code hw : Z) (r : fobs).
 
-Record fcase := mkFCase { fk_interval : Z; fk_sync : bool; fk_ext : bool; fk_steps : list fstep }.
+Record fcase := mkFCase { fk_interval : Z; fk_sync : bool; fk_ext : bool; fk_nlogs : Z; fk_steps : list fstep }.
+Definition default_ns : bytes := [100; 101; 102; 97; 117; 108; 116].   (* "default": KAFSCALE_S3_NAMESPACE *)
 
 Definition lstate := (plog * list batch)%type.
 Definition dummy_l : lstate := (init_log 1 true 0, []).
@@ -68,7 +72,17 @@ Fixpoint check_fsteps (v : variant) (sync : bool) (ls : list lstate) (steps : li
   | FFlush lg :: r =>
       let '(l, hist) := get ls lg in
       check_fsteps v sync (set_nth ls (Z.to_nat lg) (flush_log l, hist)) r
-  | FRestart stores :: r => check_fsteps v sync (restore_all ls stores) r
+  | FRestart stores lists all_keys :: r =>
+      let ls' := restore_all ls stores in
+      forallb (fun x => match x with (topic, part, prefix, returned) =>
+                 bytes_eqb prefix (part_prefix default_ns topic part)
+                 && list_eqb bytes_eqb returned (list_segments all_keys (part_prefix default_ns topic part)) end) lists
+      && (zlen lists =? zlen ls')
+      && forallb (fun (xs : (bytes * Z * bytes * list bytes) * lstate) =>
+                    match xs with ((topic, part, _, returned), st) =>
+                      forallb (fun s => existsb (bytes_eqb (seg_key default_ns topic part (s_base s))) returned) (l_segs (fst st)) end)
+                 (combine lists ls')
+      && check_fsteps v sync ls' r
   | FFetch lg o max code hw x :: r =>
       let '(l, hist) := get ls lg in
       let hwm := model_hw sync l in
@@ -84,4 +98,4 @@ Fixpoint check_fsteps (v : variant) (sync : bool) (ls : list lstate) (steps : li
 
 Definition check_fcase (k : fcase) : bool :=
   let l0 := (init_log (fk_interval k) true 0, @nil batch) in
-  check_fsteps (if fk_ext k then VFull else VFloor) (fk_sync k) [l0; l0; l0] (fk_steps k).
+  check_fsteps (if fk_ext k then VFull else VFloor) (fk_sync k) (repeat l0 (Z.to_nat (fk_nlogs k))) (fk_steps k).
